@@ -36,6 +36,7 @@ var (
 	start     = time.Now()
 	filter    func(name string) bool
 	objFilter func(o any) bool
+	objKeys   = map[string]bool{"o": true}
 	Convert   func(v any) (any, bool) // extra value converter installed by drivers
 )
 
@@ -51,6 +52,16 @@ func SetFilter(f func(name string) bool) { mu.Lock(); filter = f; mu.Unlock() }
 
 // SetObjectFilter drops hook events whose "o" object is not accepted (nil = all).
 func SetObjectFilter(f func(o any) bool) { mu.Lock(); objFilter = f; mu.Unlock() }
+
+// SetObjectKeys names the record keys that hold the object the filter looks at (default "o").
+func SetObjectKeys(keys ...string) {
+	mu.Lock()
+	objKeys = map[string]bool{}
+	for _, k := range keys {
+		objKeys[k] = true
+	}
+	mu.Unlock()
+}
 
 func WithGoroutine(on bool) { mu.Lock(); withG = on; mu.Unlock() }
 
@@ -77,7 +88,7 @@ func sink(name string, kv []any) {
 	}
 	if objFilter != nil {
 		for i := 0; i+1 < len(kv); i += 2 {
-			if k, _ := kv[i].(string); k == "o" {
+			if k, _ := kv[i].(string); objKeys[k] {
 				if !objFilter(kv[i+1]) {
 					return
 				}
